@@ -51,6 +51,10 @@ CHECKS = {
    technique="runtime monitoring: differential monitor over two builds (default tags vs -tags tinywasm) of one driver fed the same case stream",
    text="Degenerate inputs, every labeled forest up to 5/7 nodes in several spellings, every single-line malformation injection, random well-formed and mutated documents and raw bytes are sent to the same tiny driver compiled with the default tags and with -tags tinywasm; for text (default and 4 custom branch tuples), JSON and dry-run (4 extension lists) the accept/reject decision must agree and accepted outputs must be byte-identical.",
    note="The tinywasm variant is built natively (same Go sources as the web page's wasm); TinyGo/syscall-js glue is out of scope. Error texts are not compared."),
+ "C14": dict(level="fault_enumeration", design="DESIGN.md §4 C14",
+   technique="runtime monitoring with fault injection: fault-injecting io.Reader (sentinel after every byte offset) and io.Writer (failure / short write at every write index) wrapped around real calls; oracle on what the wrappers observed",
+   text="For each document of a seeded corpus the reader fails after every byte offset through 7 From-Markdown entry points (simple and massive) and the writer fails at every write index of the fault-free run, as error and as short write, for text, custom branches, JSON, YAML, TOML, dry-run and the non-iterator path, From-Markdown and From-Root, simple and massive: a reader failure must come back (errors.Is), any failed write must give a non-nil error, and nil implies the writer accepted the complete output.",
+   note="Faults that never took effect are counted inconclusive. Massive results compared as exact block cover. Heading-root documents are not run in massive mode (known finding of C10)."),
 }
 PENDING = {}
 ids = [json.loads(l)["id"] for l in open("/verif/properties.jsonl")]
